@@ -88,7 +88,7 @@ def run_mutant(job):
             if rc == 1 and "VIOLATION" in out:
                 res["status"] = "killed-by-" + c
                 return res
-            if rc not in (0, 1):
+            if rc not in (0, 1) or (rc == 1 and "VIOLATION" not in out):
                 res["status"] = "infra-%s-exit%d" % (c, rc)
                 res["tail"] = out[-300:]
                 return res
